@@ -1,4 +1,5 @@
 import functools
+import threading
 from contextlib import contextmanager
 from contextvars import ContextVar
 
@@ -368,23 +369,33 @@ def inplace(fn):
 tooled.inplace = inplace
 
 
+# Changing the instrumentation of a function (its counts, its cached variants
+# and the code object it runs) is not atomic: this lock serializes these
+# changes between threads that activate or deactivate probes concurrently.
+_tooling_lock = threading.RLock()
+
+
 def _tooler(fn, captures):
     if not hasattr(fn, "__code__"):
         raise TypeError(f"{fn} cannot be tooled")
 
-    if hasattr(fn, "__ptera_stack__"):
-        st = fn.__ptera_stack__
-    else:
-        st = fn.__ptera_stack__ = SyncedStackedTransforms(fn, proceed=proceed)
+    with _tooling_lock:
+        if hasattr(fn, "__ptera_stack__"):
+            st = fn.__ptera_stack__
+        else:
+            st = fn.__ptera_stack__ = SyncedStackedTransforms(
+                fn, proceed=proceed
+            )
 
-    st.push(captures)
+        st.push(captures)
     return fn
 
 
 def _untooler(fn, captures):
-    if hasattr(fn, "__ptera_stack__"):
-        st = fn.__ptera_stack__
-        st.pop(captures)
+    with _tooling_lock:
+        if hasattr(fn, "__ptera_stack__"):
+            st = fn.__ptera_stack__
+            st.pop(captures)
     return fn
 
 
